@@ -195,7 +195,7 @@ def val(t, r, dynmax=3):
         if r.random() < 0.12:
             # String(capacity) reads back as the empty string; capacity 0 is excluded: it has no room for the NUL terminator
             # the documented format requires
-            return ("CAP", r.choice([1, 2, 7, 8, 10, 16, 23])), ""
+            return ("CAP", r.choice([1, 2, 7, 8, 10, 16, 23, 23, 255, 256, 257, 300, 1000])), ""
         s = r.choice(STRINGS)
         return s, s
     if k == "struct":
